@@ -532,6 +532,12 @@ pub fn generate(profile: &str, variant: &str, seed: u64, index: u64) -> SimScena
             } else if rng.chance(1, 25) {
                 pol.fail_mprotect = vec![1000 + rng.below(3)]; // ... whose pages can never be made writable
                 classes.push("k-mprotect-deny-page".into());
+            } else if rng.chance(1, 12) {
+                // ... whose second page can never be made writable / whose second mprotect call fails
+                let base = *rng.pick(&[2000u64, 2000, 3000]);
+                pol.fail_mprotect = vec![base, base + 1];
+                opts.offset_class = Some(3);
+                classes.push(format!("k-mprotect-second-page-{base}"));
             }
             let l = gen_layout(&mut rng, arch, os, &pol, &opts);
             let near = predict_jit(&l, arch, os, ps, pol.mmap_min_addr);
